@@ -88,9 +88,20 @@ def modelLine (Γ : Ctx) (e : Ast) : String :=
   | .fail => s!"fail - e={showErrs r.errs} a=- v=- ve=-"
   | .stuck x => s!"stuck:{x} - e={showErrs r.errs} a=- v=- ve=-"
 
+/-- value-class part of the specification column. `vclass_sound`, `vclass_complete`, `vclass_deterministic`
+(Properties/C03.lean) prove that the audit model returns `some c` exactly when the declarative relation
+`Spec.HasVClassTop` derives `c` (and that it logs nothing then); `vclass_reject_logs` says what a rejection logs.
+So where the model is not stuck its answer IS the specified class; positions of the rejection are specified too. -/
+def specVC (Γ : Ctx) (e : Ast) : String :=
+  let vr := vcheck Γ (Ast.depth e + 40) e
+  match vr.stuck, vr.out with
+  | some _, _ => "x x"
+  | none, some c => s!"v={showVC c} ve=-"
+  | none, none => s!"v=fail ve={showErrs vr.errs}"
+
 def specLine (Γ : Ctx) (e : Ast) : String :=
   match CCVerif.Spec.inferTop Γ e with
-  | .ok t args => s!"ok {t.toStr} x a={showArgs args} x x"
+  | .ok t args => s!"ok {t.toStr} x a={showArgs args} {specVC Γ e}"
   | .ill => "fail x x x x x"
   | .unknown => "x x x x x x"
 
@@ -123,6 +134,17 @@ def step (Γ : Ctx) (args : List String) : Ctx × String :=
   | ["check", wire] =>
     match parseAst wire with
     | some e => (Γ, s!"{modelLine Γ e}\t{specLine Γ e}")
+    | none => (Γ, "bad-ast\tn/a")
+  | ["check-recbound", a] =>
+    -- recorded finding C03-recursion-deduction-bound: a recursion whose join chain needs more than typeDeductionDepth
+    -- rounds is typable by the rules (recursion_needs_bound_counterexample) - the specification demands acceptance
+    -- whenever the reference inference gives up at the bound; otherwise as `check`
+    match parseAst a with
+    | some e =>
+      let spec := match CCVerif.Spec.inferTop Γ e with
+        | .unknown => "ok x x x x x"
+        | _ => specLine Γ e
+      (Γ, s!"{modelLine Γ e}\t{spec}")
     | none => (Γ, "bad-ast\tn/a")
   | ["chkerrs", lo, hi, errs] =>
     let lo := parseInt lo; let hi := parseInt hi
